@@ -293,6 +293,34 @@ func dependsOn(fact map[string]interface{}, id string) bool {
 	return false
 }
 
+// withDependency returns the given 'deleteWith' value with the given id
+// in it.  A value that is not a list of ids is returned as it is.
+func withDependency(deleteWith interface{}, id string) interface{} {
+	switch vv := deleteWith.(type) {
+	case nil:
+		return []interface{}{id}
+	case []interface{}:
+		for _, v := range vv {
+			if s, ok := v.(string); ok && s == id {
+				return vv
+			}
+		}
+		acc := make([]interface{}, 0, len(vv)+1)
+		acc = append(acc, vv...)
+		return append(acc, id)
+	case []string:
+		for _, s := range vv {
+			if s == id {
+				return vv
+			}
+		}
+		acc := make([]string, 0, len(vv)+1)
+		acc = append(acc, vv...)
+		return append(acc, id)
+	}
+	return deleteWith
+}
+
 // SetProp is the high-level property setter.
 //
 // The given id is the target id.
@@ -348,6 +376,13 @@ func PrepareFact(ctx *Context, givenId string, x Map) (id string, m map[string]i
 		return
 	}
 	Log(DEBUG, ctx, "PrepareFact", "givenId", givenId, "id", id)
+
+	// A property belongs to its target and goes when the target goes.
+	// SetProp says so by itself; a property that is written as a fact
+	// gets the same dependency here.
+	if isProp, target, _, _, perr := parseProp(m); perr == nil && isProp {
+		m[KW_DeleteWith] = withDependency(m[KW_DeleteWith], target)
+	}
 
 	expiring, expires, err := setExpires(ctx, m)
 	if err != nil {
